@@ -193,7 +193,10 @@ def main(argv):
     for ver, mode, nstray in ([("v2c", "sync", 1100), ("v1", "sync", 2100), ("v2c", "async", 1100)] +
                               ([("v2c", "sync", 70000), ("v2c", "async", 70000)] if thorough else [])):
         strays = [{"vbs": value_vb(7).hex(), "rid": "same+%d" % (1 + i % 5), "delay": (-0.0003 if mode == "async" else (-0.001 if i % 64 == 0 else 0))} for i in range(nstray)]
-        fl.append({"version": ver, "mode": mode, "timeout": 30.0, "watchdog": 90.0, "community": "public", "_n": nstray,
+        # the scripted agent paces the flood (0.3 ms apiece for the asyncio client): the session's timeout is chosen well beyond the
+        # time the agent needs to get to the matching reply, so that only "the wait was ended" can make the call fail
+        tmo = max(30.0, nstray * 0.0015)
+        fl.append({"version": ver, "mode": mode, "timeout": tmo, "watchdog": 3 * tmo, "community": "public", "_n": nstray, "_tmo": tmo,
                    "steps": [{"op": "get", "args": ["1.3.6.1.9.1"], "replies": [strays + [{"vbs": value_vb(1).hex(), "delay": -0.05}]]}]})
     resf, logf = vf.run_api_worker("C04", {"scenarios": [{k: v for k, v in sc.items() if not k.startswith("_")} for sc in fl]}, timeout=1500)
     if resf is None:
@@ -209,9 +212,9 @@ def main(argv):
             c.count(("flood", sc["version"], sc["mode"], sc["_n"]), True)
             got = out.get("value") or out.get("exc")
             if got != "int:1001":
-                c.violation("%s/%s: after %d well-formed datagrams with foreign request-ids inside one call the matching reply was not delivered (%s after %.2f s, timeout 30 s)"
-                            % (sc["version"], sc["mode"], sc["_n"], got, out.get("wall", 0)),
-                            {"scenario": {"version": sc["version"], "mode": sc["mode"], "strays": sc["_n"], "timeout": 30.0}, "outcome": {k: out.get(k) for k in ("kind", "value", "exc", "wall")}},
+                c.violation("%s/%s: after %d well-formed datagrams with foreign request-ids inside one call the matching reply was not delivered (%s after %.2f s, timeout %.0f s)"
+                            % (sc["version"], sc["mode"], sc["_n"], got, out.get("wall", 0), sc["_tmo"]),
+                            {"scenario": {"version": sc["version"], "mode": sc["mode"], "strays": sc["_n"], "timeout": sc["_tmo"]}, "outcome": {k: out.get(k) for k in ("kind", "value", "exc", "wall")}},
                             key="flood-ends-wait")
     # ---- v3 sessions: a datagram failing any of the user / authoritative engine id / message id / request-id tests is skipped and
     # the genuine reply behind it is delivered (the acceptance condition itself is the subject of C10's theorems)
